@@ -11,6 +11,11 @@ defaults are normalised away by the translator).
 namespace PV.WiringFn
 open PV.FnCallsTbl PV.Gen.FnCalls
 
+/-- the tracked calls of a function that leave the function's own module-private helpers aside (a helper whose name starts
+    with `_` is part of the body it was extracted from; what it computes is compared by the correspondence streams) -/
+def publicCallsOf (caller : String) : List String :=
+  (callsOf sites caller).filter (fun c => !c.startsWith "_")
+
 /-- the two data arguments of both `csd` calls: channel axis against reference axis, `Ndat` from the reference -/
 def csdX : String × String := ("x", "Yall.reshape(Yall.shape[0], 1, Yref.shape[1])")
 def csdY : String × String := ("y", "Yref.reshape(1, Yref.shape[0], Yref.shape[1])")
@@ -43,13 +48,13 @@ theorem C13_sd_est_expwin :
     is written first is immaterial: the tests are exclusive); the `csd` result of the `'cor'` branch goes to `Pxy` (its
     frequency vector is dropped), that of the `'per'` branch IS `freq, Sy`. -/
 theorem C13_sd_est_calls :
-    (callsOf sites "SD_est").length = 3
-    ∧ (callsOf sites "SD_est").count "signal.csd" = 2
-    ∧ (callsOf sites "SD_est").count "signal.windows.exponential" = 1
+    (publicCallsOf "SD_est").length = 3
+    ∧ (publicCallsOf "SD_est").count "signal.csd" = 2
+    ∧ (publicCallsOf "SD_est").count "signal.windows.exponential" = 1
     ∧ (sitesUnder sites "SD_est" "signal.csd" "method == 'cor'").map (·.ret) = [["_", "Pxy"]]
     ∧ (sitesUnder sites "SD_est" "signal.csd" "method == 'per'").map (·.ret) = [["freq", "Sy"]]
     ∧ (sites.filter (fun s => s.caller == "SD_est")).all (fun s => !s.loop) = true := by
-  decide
+  decide +kernel
 
 /-- **C13 / C04.** Signature defaults of the two estimators. -/
 theorem C13_sd_est_defaults :
@@ -91,7 +96,7 @@ theorem C04_preger_sd_est_calls :
     `DF = DF1` (all requested frequencies), and per requested frequency `n` calls
     `SDOF_bellandMS(Sy, dt, sel_freq[n], Phi_FDD[:, n], method, cm, MAClim, DF = DF2)`. -/
 theorem C07_efdd_inner_calls :
-    callsOf sites "EFDD_mpe" = ["SD_svalsvec", "FDD_mpe", "SDOF_bellandMS"]
+    publicCallsOf "EFDD_mpe" = ["SD_svalsvec", "FDD_mpe", "SDOF_bellandMS"]
     ∧ bindsExactly sites "EFDD_mpe" "SD_svalsvec" 0 [] [("SD", "Sy")] = true
     ∧ (siteOf sites "EFDD_mpe" "SD_svalsvec" 0).map (·.ret) = some ["Sval", "Svec"]
     ∧ bindsExactly sites "EFDD_mpe" "FDD_mpe" 0 []
@@ -101,6 +106,6 @@ theorem C07_efdd_inner_calls :
         [("Sy", "Sy"), ("dt", "dt"), ("sel_fn", "sel_freq[n]"), ("phi_FDD", "Phi_FDD[:, n]"), ("method", "method"),
          ("cm", "cm"), ("MAClim", "MAClim"), ("DF", "DF2")] = true
     ∧ (siteOf sites "EFDD_mpe" "SDOF_bellandMS" 0).map (fun s => (s.ret, s.loop)) = some (["SDOFbell", "SDOFms"], true) := by
-  decide
+  decide +kernel
 
 end PV.WiringFn
